@@ -280,6 +280,16 @@ def _check_bigcom(ctx, case):
 # ------------------------------------------------------------------------------------------------
 # kind "fit"
 # ------------------------------------------------------------------------------------------------
+def _is_index_grid(d):
+    return list(d["scale"]) == [1.0, 1.0] and float(d["angle"]) == 0.0 and list(d["offset"]) == [0.0, 0.0]
+
+
+def _positions_class(d):
+    if d is None:
+        return "none"
+    return "%s/%s/%s" % ("index_grid" if _is_index_grid(d) else "affine", d["form"], d["layout"])
+
+
 def _check_fit(ctx, case):
     torch, Dataset4dstem, Origin, _Raster, pu = _q()
     a, b = case["scan"]
@@ -304,6 +314,7 @@ def _check_fit(ctx, case):
             "fit_origin_data:" + case["data_dtype"],
             "fit_origin_mask:" + case["fo_mask"],
             "surface:" + ("flat" if not any(sr[1:] + sc[1:]) else "tilted"),
+            "probe_positions:" + _positions_class(case.get("positions")),
         ],
     )
 
@@ -312,14 +323,22 @@ def _check_fit(ctx, case):
         ds = Dataset4dstem.from_array(np.ones((a, b, H, W), dtype=np.float32), units=list(UNITS))
         om = Origin.from_dataset(ds, device="cpu")
     meas = np.stack([zr.ravel(), zc.ravel()], axis=-1).astype(np.float32)
-    with ctx.sut(case, "fit_origin_background(fit_method=%r)" % method):
+    pdesc = case.get("positions")
+    if pdesc is None:
+        pos, pwhat = None, "None"
+    else:
+        P = gd.make_positions((a, b), pdesc)
+        form = pdesc["form"]
+        pos = torch.tensor(P, dtype=torch.float32) if form == "tensor32" else torch.tensor(P) if form == "tensor64" else P.tolist() if form == "list" else P
+        pwhat = "%s %s%s" % (pdesc["layout"], form, "" if _is_index_grid(pdesc) else " (affine image of the index grid)")
+    with ctx.sut(case, "fit_origin_background(probe_positions=%s, fit_method=%r)" % (pwhat, method)):
         om.origin_measured = torch.tensor(meas)
-        om.fit_origin_background(fit_method=method)
+        om.fit_origin_background(probe_positions=pos, fit_method=method)
         fitted = om.origin_fitted
     f = _np64(fitted)
     if f.shape != (n, 2):
         raise core.Violation("origin_fitted has shape %s, expected %s" % (f.shape, (n, 2)), case)
-    e32 = _judge_pair(case, "fit_origin_background(%r) of origins exactly on that surface" % method, f[:, 0].reshape(a, b), f[:, 1].reshape(a, b), zr, zc, TOL_FIT32)
+    e32 = _judge_pair(case, "fit_origin_background(%r, probe_positions=%s) of origins exactly on that surface" % (method, pwhat), f[:, 0].reshape(a, b), f[:, 1].reshape(a, b), zr, zc, TOL_FIT32)
 
     # --- ptycho_utils.fit_origin ------------------------------------------------------------------
     dt = np.dtype(case["data_dtype"])
@@ -338,6 +357,8 @@ def _check_fit(ctx, case):
     e64 = _judge_pair(case, "fit_origin(%r) of origins exactly on that surface" % method, fr, fc, zr, zc, tol)
     _judge_pair(case, "fit_origin(%r) residuals of an exact surface" % method, rr, rc, np.zeros((a, b)), np.zeros((a, b)), tol)
     ctx.extra["max_fit32_err_px"] = max(ctx.extra.get("max_fit32_err_px", 0.0), e32)
+    if pdesc is not None and not _is_index_grid(pdesc):
+        ctx.extra["max_fit32_err_px_affine_positions"] = max(ctx.extra.get("max_fit32_err_px_affine_positions", 0.0), e32)
     if dt == np.float64:
         ctx.extra["max_fit64_err_px"] = max(ctx.extra.get("max_fit64_err_px", 0.0), e64)
 
